@@ -144,7 +144,9 @@ def oracle_hostile(ctx, ops, impl):
                             (len(h.split()) > 2 and h.split()[2] == by and h.split()[1] in ("identify", "register"))]
                     ctx.violation("bystander-lost:" + kind, what + ": %s" % ((shown + nd)[:3],),
                                   "\n".join(mini + [hist[-1]]) + "\n")
-    ctx.corr["hostile_reply_kinds"] = kinds
+    tot = ctx.corr.setdefault("hostile_reply_kinds", {})
+    for k_, v_ in kinds.items():
+        tot[k_] = tot.get(k_, 0) + v_
 
 
 def oracle_sweep(ctx, ops, impl):
@@ -212,6 +214,42 @@ def liveness(ctx, binp, params=None):
         return []
     ctx.log("liveness harness failed (rc=%s):\n%s" % (rc, out[-1500:]))
     return ["liveness harness exit %s" % rc]
+
+
+UNBOUNDED = {
+    "line": ("unbounded-line-read",
+             "a TCP connection sent %d bytes without a newline; nsqlookupd buffered all of them (live heap +%d bytes) and kept "
+             "waiting: reader.ReadString('\\n') at lookup_protocol_v1.go:41 has no maximum line length"),
+    "http-body": ("unbounded-http-body-read",
+                  "a POST /topic/create carried a %d-byte body; nsqlookupd buffered all of it (live heap +%d bytes) before looking "
+                  "at the request: io.ReadAll(req.Body) in internal/http_api/req_params.go:21 has no limit"),
+}
+
+
+def unbounded(ctx, binp):
+    """open known findings unbounded-line-read / unbounded-http-body-read: replayed on every run (corpus/C15/known/)"""
+    mib = 32
+    for l in e4.read_lines(os.path.join(ROOT, "corpus", "C15", "known", "unbounded_reads.txt")):
+        if l.startswith("mib="):
+            mib = int(l.split("=")[1])
+    rc, out = e4.run_leg(ctx, binp, "TestVerifE4Unbounded", {"VERIF_UNBOUNDED_MIB": mib}, 300, real_failure=died)
+    if died(rc, out):
+        ctx.violation("crash:unbounded", "nsqlookupd died while a peer sent %d MiB without a newline / as a POST body" % mib, out[-3000:])
+        return []
+    if rc != 0 or "E4-UNBOUNDED-DONE" not in out:
+        ctx.log("unbounded-read replay failed (rc=%s):\n%s" % (rc, out[-1500:]))
+        return ["unbounded-read replay did not complete"]
+    for l in out.splitlines():
+        if l.startswith("E4-UNBOUNDED"):
+            ctx.corr.setdefault("unbounded_reads", []).append(l)
+        if l.startswith("E4-UNBOUNDED kind="):
+            kv = dict(x.split("=", 1) for x in l.split()[1:])
+            ctx.evaluations += 1
+            if kv.get("reproduced") == "true":
+                key, what = UNBOUNDED[kv["kind"]]
+                ctx.violation(key, what % (int(kv["sent"]), int(kv["live_heap_growth"])),
+                              "unbounded kind=%s mib=%d\n# run: ./check C15 (TestVerifE4Unbounded, corpus/C15/known/unbounded_reads.txt)\n" % (kv["kind"], mib))
+    return []
 
 
 def run_replay(ctx, binp, path, label, must_pass_key=None):
@@ -291,10 +329,22 @@ def run(ctx):
             if s == 0:
                 for k in (5, len(ops) // 2):
                     ctx.add_sample({"op": ops[k][:300], "impl": impl[k][:300]})
+        # reach of the hostile generator (audit C32): every documented error code must be a sizeable share of the
+        # error replies, i.e. the streams get past IDENTIFY into getTopicChan (evidence only, not a verdict)
+        kinds = ctx.corr.get("hostile_reply_kinds", {})
+        errs = sum(v for k, v in kinds.items() if k.startswith("E_"))
+        share = {k: round(100.0 * v / max(errs, 1), 1) for k, v in kinds.items() if k.startswith("E_")}
+        ctx.corr["hostile_error_share_percent"] = share
+        thin = [c for c in ("E_BAD_TOPIC", "E_BAD_CHANNEL", "E_INVALID", "E_BAD_BODY") if share.get(c, 0) < 10.0]
+        if thin and errs:
+            ctx.notes.append("hostile generator reach below 10%% of the error replies for %s (%s)" % (thin, share))
         # 2b. concurrent liveness ("stop it answering others")
         broken += liveness(ctx, binp)
-        # 3. HTTP sweep (in-process router; thorough: also over real HTTP, all value classes)
-        sweeps = [{}] if not ctx.thorough() else [{"VERIF_FULL": "1"}, {"VERIF_REALHTTP": "1"}]
+        # 2c. open known findings: unbounded line / body reads (replayed on every run)
+        broken += unbounded(ctx, binp)
+        # 3. HTTP sweep through the daemon's real listener (thorough: all value classes; and once more through
+        #    ServeHTTP on a second server object for comparison)
+        sweeps = [{}] if not ctx.thorough() else [{"VERIF_FULL": "1"}, {"VERIF_INPROC": "1"}]
         for env in sweeps:
             rc, out = e4.run_leg(ctx, binp, "TestVerifE4HttpSweep", env, 900, real_failure=died)
             if rc != 0:
